@@ -18,6 +18,21 @@ CLAIMED = {
         "note": "Trusted: gymnasium step protocol; RecordEpisodeStatistics queues; integer semantics of range/while. Not decided: D-UCB arg-max numerics, the "
                 "per-batch budget granularity of the on-policy collectors (documented design), what single-task routines passed as `train_st` do.",
     },
+    "C05": {
+        "technique": "static analysis: bottom-up module write-effect summaries over the resolved call graph (aliases through partial/jit/cached_partial/scan bodies), reaching-definition pairing of value_and_grad argnums with optimizer.update, object-identity analysis of returned components",
+        "level": "Decides for all inputs and call schedules: every gradient is applied to the object it was taken with respect to (17 sites), the write-effect set of each of the 15 update "
+                 "routines equals its documented trainee set, optimizer/module pairs at every training-loop call site agree with create_*_state, 60+ loss/policy/sampler functions "
+                 "have an empty effect set, the update follows its gradient on every path, and returned components are pairwise distinct objects.",
+        "note": "Trusted: flax nnx semantics of value_and_grad(argnums), Optimizer.update(model, grads), nnx.update; modules change in no other way (raw `.value` stores are scanned for). "
+                "Not decided: bit-identity of untouched components (follows from the effect sets under the trusted base), that a non-zero gradient changes parameters (optax).",
+    },
+    "C06": {
+        "technique": "static analysis: def-use normal form of the target-update helpers (plus polynomial identity of optax's leaf function parsed from the installed source), object-identity / aliasing analysis, write-effect summaries, control-dependence guard sets compared with the documented cadence",
+        "level": "Decides for all parameter trees and histories: the helpers implement update(target, incremental_update(state(net), state(target), tau)) / update(target, state(net)) with tau "
+                 "unmodified; every target object (component-wise, through constructor fields and callee parameters) is a parameter or fresh clone distinct from all online objects; targets are "
+                 "written only by the helpers in (online, target) order; each of the 17 helper call sites is guarded exactly by its documented cadence; chained copies are ordered.",
+        "note": "Trusted: nnx.update / nnx.state / nnx.clone semantics; optax.incremental_update (leaf function re-derived in the thorough tier). Not decided: leaf-wise float values.",
+    },
 }
 
 NOT_APPLICABLE = {}
